@@ -29,6 +29,7 @@ type stdOpts struct {
 	SstoreSeq bool   // sequences of stores to one slot
 	Scn       bool   // scenario call trees
 	ScnDeep   bool   // depth 3 (max 3 frames)
+	ScnLite   bool   // reduced scenario alphabet (quick tiers of the trace-comparing checks)
 	ScnGas    uint64 // gas of the scenario's top-level call
 }
 
@@ -234,6 +235,14 @@ func forEachStdCase(w *fw.W, o stdOpts, fn func(cs *world.Case, family string)) 
 		if o.ScnDeep {
 			so.Gen.MaxDepth, so.Gen.MaxFrames = 3, 3
 		}
+		if o.ScnLite {
+			so.Forks = []world.Fork{world.London, world.Shanghai}
+			so.Gen.Effects, so.Gen.PreEffects = []scn.Effect{scn.ENone, scn.ESstore}, []scn.Effect{scn.ENone}
+			so.Gen.Terms = []scn.Term{scn.TStop, scn.TReturn, scn.TRevert, scn.TInvalid}
+			so.Gen.InitTerms = []scn.Term{scn.TStop, scn.TReturn, scn.TRevert, scn.TReturnEF}
+			so.Gen.Kinds = []scn.Kind{scn.KCall, scn.KDelegateCall, scn.KCreate, scn.KCreate2}
+			so.Gen.Values, so.Gen.Targets = []int{0, 1}, []scn.Target{scn.TgChild, scn.TgCodeless}
+		}
 		ok := true
 		mc.Explore(0, func(c *mc.Ctx) {
 			sc := genScn(c, so)
@@ -307,4 +316,21 @@ func opClassReps() []byte {
 	return []byte{0x00, 0x01, 0x0a, 0x0c, 0x10, 0x1b, 0x1e, 0x20, 0x21, 0x30, 0x31, 0x35, 0x37, 0x3b, 0x3d, 0x3e, 0x3f, 0x40, 0x46, 0x47, 0x48, 0x49,
 		0x50, 0x51, 0x52, 0x54, 0x55, 0x56, 0x57, 0x58, 0x5a, 0x5b, 0x5c, 0x5e, 0x5f, 0x60, 0x61, 0x7f, 0x80, 0x8f, 0x90, 0x9f, 0xa0, 0xa2, 0xa5,
 		0xb3, 0xf0, 0xf1, 0xf2, 0xf3, 0xf4, 0xf5, 0xfa, 0xfb, 0xfd, 0xfe, 0xff}
+}
+
+// DebugCountScn counts the scenarios of the lite family (diagnostics).
+func DebugCountScn() (n int, sample []string) {
+	w := fw.NewW("dbg", 0, 1, "quick", 0)
+	o, _ := c02Opts("quick")
+	o.IMBound, o.SeqL, o.EntrySeqL, o.EIPs, o.SstoreSeq = 0, 0, 0, false, false
+	o.Forks = o.Forks[:1]
+	forEachStdCase(w, o, func(cs *world.Case, family string) {
+		if family == "SCN" {
+			n++
+			if n%97 == 1 && len(sample) < 12 {
+				sample = append(sample, cs.Note)
+			}
+		}
+	})
+	return
 }
